@@ -154,6 +154,16 @@ func metadata(h http.Header, stripPrefix string) http.Header {
 	return out
 }
 
+// encodingOf reads an encoding header strictly: it is absent or names a
+// content-coding; present-but-empty names nothing and is not grammatical.
+func encodingOf(h http.Header, key string) (string, error) {
+	v, n := single(h, key)
+	if n > 0 && strings.TrimSpace(v) == "" {
+		return "", fmt.Errorf("%s header is present but names no content-coding", key)
+	}
+	return v, nil
+}
+
 func single(h http.Header, key string) (string, int) {
 	vs := h[textproto.CanonicalMIMEHeaderKey(key)]
 	if len(vs) == 0 {
@@ -491,7 +501,10 @@ func DecodeResponse(p Proto, streaming bool, reqCT string, status int, hdr http.
 		if ct != reqCT {
 			return nil, fmt.Errorf("response content-type %q does not echo the request's %q", ct, reqCT)
 		}
-		r.Encoding, _ = single(hdr, "Connect-Content-Encoding")
+		var encErr error
+		if r.Encoding, encErr = encodingOf(hdr, "Connect-Content-Encoding"); encErr != nil {
+			return nil, encErr
+		}
 		r.Header = metadata(hdr, "")
 		envs, end, exact := SplitEnvelopes(body)
 		if !exact {
@@ -541,7 +554,10 @@ func DecodeResponse(p Proto, streaming bool, reqCT string, status int, hdr http.
 		if ct != reqCT {
 			return nil, fmt.Errorf("response content-type %q does not echo the request's %q", ct, reqCT)
 		}
-		r.Encoding, _ = single(hdr, "Grpc-Encoding")
+		var encErr error
+		if r.Encoding, encErr = encodingOf(hdr, "Grpc-Encoding"); encErr != nil {
+			return nil, encErr
+		}
 		envs, end, exact := SplitEnvelopes(body)
 		if !exact {
 			return nil, fmt.Errorf("body has %d trailing bytes that are not a complete envelope", len(body)-end)
@@ -635,7 +651,10 @@ func decodeConnectUnary(r *Response, reqCT, ct string, status int, hdr http.Head
 			r.Header[k] = vs
 		}
 	}
-	r.Encoding, _ = single(hdr, "Content-Encoding")
+	var encErr error
+	if r.Encoding, encErr = encodingOf(hdr, "Content-Encoding"); encErr != nil {
+		return nil, encErr
+	}
 	data := body
 	if r.Encoding != "" && r.Encoding != "identity" && len(body) > 0 {
 		var err error
